@@ -922,6 +922,11 @@ class Process(StateMachine, persistence.Savable, metaclass=ProcessStateMachineMe
     def on_terminated(self) -> None:
         """Call when a terminal state is reached."""
         super().on_terminated()
+        if self._paused is not None:
+            # there is nothing left to play: release the stepping task if it still sleeps on the pause
+            paused, self._paused = self._paused, None
+            if not paused.done():
+                paused.set_result(True)
         self.close()
 
     @super_check
@@ -1322,6 +1327,10 @@ class Process(StateMachine, persistence.Savable, metaclass=ProcessStateMachineMe
 
         while self.paused and self._paused is not None:
             await self._paused
+
+        if self.has_terminated():
+            # killed (or failed) while paused: there is nothing left to step
+            return
 
         try:
             self._stepping = True
